@@ -17,6 +17,24 @@ Streams
              layouts; after every prefix every consumer is run on the returned table and on the
              same data in a plain table; acceptance, numbers and the produced layout class are
              compared with each other and with the measured table.
+  filterx  : the filters on every DATA class the statement quantifies over ("all trajectory
+             tables"): NaN / +-inf entries in `size` and `mass` (and in positions, which the filters
+             do not read), trajectories without any measured size, integer / float32 `size` and
+             positions, object / int32 / float / categorical / string labels, negative and
+             non-contiguous frame numbers, extra columns whose names clash with index level names,
+             tables carrying `attrs`; every index layout.  Direct oracle from the statement in
+             exact arithmetic (for NaN sizes BOTH readings of "mean size" are accepted, see
+             ASSUMPTIONS), values and dtypes of the returned rows unchanged, the caller's table
+             (values, index, columns, dtypes, attrs) unchanged, and the same call on the same data
+             in a freshly BUILT plain table (no index, no attrs) must return the same rows.
+  session  : programs that are DAGs over table OBJECTS, not chains: a table consumed by several
+             stages, a stage applied to a table after another stage has seen that object, one
+             stage called several times on one object with different parameters, results fed back
+             (relinking a linked table with another range, link_partial patches).  The stage
+             receives the object itself (no defensive copy).  Every step is compared with (i) the
+             statement's direct oracle (filters) and (ii) the same stage on the same data in a
+             freshly built plain default-indexed DataFrame (partitions for link / link_partial);
+             after every step every live table of the caller must be unmodified (attrs included).
 """
 import itertools
 import json
@@ -37,8 +55,15 @@ RULE = ("table stream: 1 case = 12 stages x 10 layout classes x 5 representative
         "swept around the observed counts / exact ties with the mean sizes, every index layout; "
         "pipeline stream: random producer chains (depth 1-4; thorough <=6 plus all chains of depth "
         "<=3) started from every initial layout, all 12 stages applied after every prefix.  "
+        "filterx stream: the filter tables with NaN/inf sizes and masses, unmeasured trajectories, "
+        "int/float32 sizes and positions, object/int32/float/categorical/string labels, negative and "
+        "non-contiguous frames, clashing extra columns, attrs; cuts on the 1/16 grid next to the "
+        "trajectory means; session stream: 3-10 step programs over registers in 4 families "
+        "(revisit: A(T); U=B(T); A(U) for all 12x5 (A,B); twice; feedback; random DAG biased to "
+        "re-used sources).  "
         "Non-trivial = filter case that both keeps and drops a trajectory / pipeline case with >=2 "
-        "accepted producer steps and >=8 consumer comparisons; distinct = distinct canonical input.")
+        "accepted producer steps and >=8 consumer comparisons / session with >=3 executed steps and "
+        ">=1 table object used more than once; distinct = distinct canonical input.")
 ASSUMPTIONS = [
     "index layouts are abstracted to 10 classes (Model/Pipeline.lean Layout); that acceptance, the "
     "produced class and 'same numbers' depend only on the class is an assumption attacked by the "
@@ -60,6 +85,24 @@ ASSUMPTIONS = [
     "filter sizes are k/4 and cuts k/8 or exact group means, so the float mean is compared with the "
     "cut exactly or with margin >= 1/96; a margin < 1e-9 that is not an exact tie is borderline",
     "numba, scikit-learn and pims are absent: link uses the KDTree + recursive/hybrid defaults",
+    "'mean size' of a trajectory with NaN sizes is ambiguous in the statement: BOTH readings are "
+    "accepted - the mean over the measured (non-NaN) sizes (what pandas computes) and a NaN mean "
+    "(not below any cut); a result is flagged only if its row set equals neither; a trajectory "
+    "without any measured size (and one with +inf and -inf sizes) has no mean and must never be "
+    "returned; the quantile cut is the documented quantile of the measured sizes (not used when "
+    "sizes contain inf)",
+    "filterx / session: 'the same data in a plain default-indexed table' is a DataFrame freshly "
+    "built from the column arrays (same rows, order, columns, dtypes; RangeIndex, empty attrs), so "
+    "that no state attached to the table object can be inherited; in the session stream a stage "
+    "is handed the caller's object itself and must leave every table of the caller unmodified "
+    "(values, index, index names, columns, dtypes, attrs) - the statement allows no modification",
+    "session: a rejection / other numbers on the INITIAL table (not returned by a stage) counts only "
+    "for the filters (exactness is claimed for all tables); for the other stages it is a counter, as "
+    "in the pipeline stream",
+    "categorical and string labels only in filterx: compute_drift / subtract_drift (Series.diff on the "
+    "labels) and link_partial (writes integer ids into the label column) reject them on the plain "
+    "default-indexed table as well (degenerate by the rule above); integer positions only in "
+    "filterx (rounding removes the offsets that make linking optima unique)",
 ]
 MIN_NONTRIVIAL = 20
 
@@ -237,10 +280,12 @@ def default_params():
                 separation=5.0)
 
 
-def run_stage(name, t, par):
-    """one stage on (a copy of) table t with parameters derived from `par` and the data"""
+def run_stage(name, t, par, copy=True):
+    """one stage on (a copy of) table t with parameters derived from `par` and the data.
+    copy=False (session stream): the stage receives the caller's table OBJECT itself"""
     T = tp()
-    t = t.copy()
+    if copy:
+        t = t.copy()
     if name == "link":
         return T.link(t, par["search_range"], memory=par.get("memory", 0))
     if name == "link_partial":
@@ -270,8 +315,9 @@ def run_stage(name, t, par):
     if name == "proximity":
         return T.proximity(t)
     if name == "relate_frames":
-        f1 = int(t["frame"].min())
-        return T.relate_frames(t, f1, f1 + 1)
+        fr = np.unique(t["frame"].values)                         # the two first frames present
+        f1 = int(fr[0])
+        return T.relate_frames(t, f1, int(fr[1]) if len(fr) > 1 else f1 + 1)
     raise ValueError(name)
 
 
@@ -691,6 +737,10 @@ def gen_cases(ctx):
                         yield inp
         for i in range(ctx.n(300, 3000)):
             yield gen_pipeline(ctx.rng("pipeline", i), 6 if ctx.thorough else 4)
+        for i in range(ctx.n(320, 3600)):
+            yield gen_filterx(ctx.rng("filterx", i), i)
+        for i in range(ctx.n(320, 3600)):
+            yield gen_session(ctx.rng("session", i), i, ctx.thorough)
     finally:
         try:
             os.unlink(path)
@@ -1039,6 +1089,751 @@ def run_pipeline_case(ctx, inp):
     return res
 
 
+# ------------------------------------------------------------------------------------------
+# data classes shared by the filterx and session streams
+
+EXTRA_NAMES = ["frame_index", "foo", "k", "a", "index", "level_0", "particle_index"]
+
+
+def gen_mods(rng, rows, session):
+    """data classes on top of gen_rows (as index lists / names, so that the input stays JSON):
+    NaN / inf entries in `size` and `mass` (filterx also positions: the filters do not read them),
+    integer / float32 `size`, float32 positions, object / int32 / float labels (filterx also
+    categorical and string labels), negative and non-contiguous frame numbers, extra columns whose
+    names clash with index level names, a non-empty `attrs` dict on the caller's table."""
+    n = len(rows)
+    parts = sorted({r["particle"] for r in rows})
+    m = {}
+    special = False
+    if rng.random() < 0.5:
+        nan = set()
+        if rng.random() < 0.6:                                   # a trajectory without any measured size
+            p = rng.choice(parts)
+            nan |= {i for i in range(n) if rows[i]["particle"] == p}
+        for p in parts:
+            if rng.random() < 0.5:
+                q = rng.choice([0.2, 0.5, 0.8])
+                nan |= {i for i in range(n) if rows[i]["particle"] == p and rng.random() < q}
+        if not nan:
+            nan.add(rng.randrange(n))
+        m["nan_size"] = sorted(nan)
+        special = True
+    if rng.random() < 0.12:
+        k = rng.randint(1, 3)
+        m["inf_size"] = [[rng.randrange(n), rng.choice([1, 1, -1])] for _ in range(k)]
+        special = True
+    if special:
+        m["size_dtype"] = rng.choice(["float64", "float64", "float32"])
+    else:
+        m["size_dtype"] = rng.choice(["float64", "float64", "float32", "int64", "int32"])
+    if rng.random() < 0.2:
+        m["nan_mass"] = sorted({rng.randrange(n) for _ in range(rng.randint(1, 3))})
+    if rng.random() < 0.1:
+        m["inf_mass"] = [[rng.randrange(n), rng.choice([1, -1])]]
+    if not session and rng.random() < 0.15:
+        m["nan_pos"] = [[rng.randrange(n), rng.choice(["x", "y"])] for _ in range(rng.randint(1, 2))]
+    if rng.random() < 0.15:
+        # integer positions only where no stage reads them (filterx): rounding removes the generic
+        # offsets that make linking optima unique (see gen_rows)
+        m["pos_dtype"] = "float32" if session else rng.choice(["float32", "int64"])
+    kinds = ["int64"] * 6 + ["object", "object", "int32", "float64"]
+    if not session:
+        # categorical / string labels: the filters are label-agnostic and handle them; compute_drift,
+        # subtract_drift (Series.diff on the labels) and link_partial (writes integer ids into the
+        # column) reject them on the plain default-indexed table as well, so they are a filter-only
+        # class (reported, see the final report of wip-S2)
+        kinds += ["category", "str", "negative"]                 # link_partial reads ids < 0 as 'unlabelled'
+    m["particle_kind"] = rng.choice(kinds)
+    if rng.random() < 0.3:
+        m["frame_map"] = [rng.choice([1, 1, 2, 3]), rng.choice([-3, -20, -1, 1000, 0])]
+    if rng.random() < 0.12:
+        m["frame_dtype"] = rng.choice(["float64", "int32"])     # link coerces float frames to int64
+    if rng.random() < 0.25:
+        m["extra"] = rng.sample(EXTRA_NAMES, rng.randint(1, 2))
+    if rng.random() < 0.2:
+        m["attrs"] = {"source": "movie-%d.tif" % rng.randint(0, 9), "mpp": 0.5}
+    return m
+
+
+def add_clash(rng, mods, layout, variant):
+    """with probability 0.3 an extra column named like the index (level) of the chosen layout -
+    for a frame-named index the name pandas_sort renames that index to"""
+    name = {"otherNamed": "frame_index" if variant % 2 == 0 else "foo", "frameIdx": "frame_index",
+            "frameMI": "k", "particleMI": "k", "otherMI": "a",
+            "particleIdx": "particle_index"}.get(layout)
+    if name and rng.random() < 0.3:
+        mods["extra"] = sorted(set(mods.get("extra", []) + [name]))
+    return mods
+
+
+def build_table(rows, mods, layout, variant):
+    """the caller's table: rows + data classes `mods` + a row identity column `rid`, in `layout`"""
+    P = pd()
+    m = mods or {}
+    df = make_df(rows)
+    n = len(df)
+    if m.get("frame_map"):
+        a, b = m["frame_map"]
+        df["frame"] = (a * df["frame"] + b).astype(np.int64)
+    if m.get("frame_dtype"):
+        df["frame"] = df["frame"].astype(m["frame_dtype"])
+    sd = m.get("size_dtype", "float64")
+    if sd in ("int64", "int32"):
+        df["size"] = np.round(df["size"].values * 4).astype(sd)   # sizes k/4 -> the integer k
+    size = df["size"].values.astype(np.float64) if sd.startswith("float") else None
+    if size is not None:
+        for i in m.get("nan_size", []):
+            size[i] = np.nan
+        for i, sg in m.get("inf_size", []):
+            size[i] = np.inf if sg > 0 else -np.inf
+        df["size"] = size.astype(sd)
+    mass = df["mass"].values.astype(np.float64)
+    for i in m.get("nan_mass", []):
+        mass[i] = np.nan
+    for i, sg in m.get("inf_mass", []):
+        mass[i] = np.inf if sg > 0 else -np.inf
+    df["mass"] = mass
+    for i, c in m.get("nan_pos", []):
+        df.loc[i, c] = np.nan
+    if m.get("pos_dtype"):
+        for c in ("x", "y"):
+            v = df[c].values
+            if m["pos_dtype"].startswith("int"):
+                v = np.round(np.where(np.isnan(v), 0.0, v))
+            df[c] = v.astype(m["pos_dtype"])
+    pk = m.get("particle_kind", "int64")
+    if pk == "object":
+        df["particle"] = P.Series([int(v) for v in df["particle"].values], dtype=object)
+    elif pk == "str":
+        df["particle"] = P.Series(["p%d" % v for v in df["particle"].values])
+    elif pk == "category":
+        df["particle"] = df["particle"].astype("category")
+    elif pk == "negative":
+        df["particle"] = -df["particle"] - 1
+    elif pk != "int64":
+        df["particle"] = df["particle"].astype(pk)
+    for j, name in enumerate(m.get("extra", [])):
+        df[name] = 0.5 * np.arange(n) + j
+    df["rid"] = np.arange(n)
+    t = apply_layout(df, layout, variant)
+    if m.get("attrs"):
+        t.attrs.update(m["attrs"])
+    return t
+
+
+def mods_stats(res, t, mods):
+    m = mods or {}
+    if m.get("nan_size"):
+        res.stat("nan_size_tables")
+    if m.get("inf_size"):
+        res.stat("inf_size_tables")
+    if m.get("nan_mass") or m.get("inf_mass"):
+        res.stat("nonfinite_mass_tables")
+    if m.get("nan_pos"):
+        res.stat("nan_position_tables")
+    res.stat("size_dtype_%s" % m.get("size_dtype", "float64"))
+    res.stat("particle_kind_%s" % m.get("particle_kind", "int64"))
+    if m.get("frame_dtype"):
+        res.stat("frame_dtype_%s" % m["frame_dtype"])
+    if m.get("pos_dtype"):
+        res.stat("%s_position_tables" % m["pos_dtype"])
+    fr = np.unique(t["frame"].values)
+    if len(fr) and fr[0] < 0:
+        res.stat("negative_frame_tables")
+    if len(fr) > 1 and np.any(np.diff(fr) > 1):
+        res.stat("noncontiguous_frame_tables")
+    if m.get("extra"):
+        res.stat("extra_column_tables")
+        names = [x for x in t.index.names if x is not None]
+        if any(x in m["extra"] for x in names):
+            res.stat("extra_column_clashes_with_index_level")
+    if m.get("attrs"):
+        res.stat("tables_with_attrs")
+
+
+def fresh_table(t):
+    """the same DATA (rows, row order, columns, dtypes) in a freshly BUILT plain default-indexed
+    DataFrame: built from the column arrays, so nothing of the OBJECT t (index, attrs, flags, cached
+    state) is inherited - `t.reset_index(drop=True)` / `t.copy()` propagate `attrs`."""
+    P = pd()
+    cols = list(t.columns)
+    if len(set(cols)) != len(cols):
+        raise RuntimeError("duplicate column names: %s" % cols)
+    data = {}
+    for j, c in enumerate(cols):
+        col = t.iloc[:, j]
+        if isinstance(col.dtype, np.dtype):
+            data[c] = np.array(col.to_numpy(), copy=True)
+        else:
+            data[c] = col.array.copy()
+    f = P.DataFrame(data, columns=cols)
+    if f.attrs or not isinstance(f.index, P.RangeIndex):
+        raise RuntimeError("fresh table is not plain")
+    return f
+
+
+def snapshot(t):
+    import copy
+    return dict(values=fresh_table(t), index=t.index.copy(deep=True), names=list(t.index.names),
+                columns=list(t.columns), dtypes=[str(d) for d in t.dtypes],
+                attrs=copy.deepcopy(dict(t.attrs)))
+
+
+def modified_aspect(snap, t):
+    """which aspect of the caller's table differs from the snapshot taken before (None = nothing)"""
+    if list(t.columns) != snap["columns"]:
+        return "columns", "%s -> %s" % (snap["columns"], list(t.columns))
+    if [str(d) for d in t.dtypes] != snap["dtypes"]:
+        return "dtypes", "%s -> %s" % (snap["dtypes"], [str(d) for d in t.dtypes])
+    if list(t.index.names) != snap["names"]:
+        return "index-names", "%s -> %s" % (snap["names"], list(t.index.names))
+    if type(t.index) is not type(snap["index"]) or not t.index.equals(snap["index"]):
+        return "index", "index values changed"
+    if not fresh_table(t).equals(snap["values"]):
+        return "values", "column values changed"
+    try:
+        same = dict(t.attrs) == snap["attrs"]
+    except Exception:
+        same = False
+    if not same:
+        return "attrs", "attrs %r -> keys %s" % (snap["attrs"], sorted(map(str, t.attrs)))
+    return None
+
+
+def traj_groups(S):
+    """{label: [row positions]} of the table S (labels as python scalars, order of appearance)"""
+    lab = S["particle"].tolist()
+    g = {}
+    for i, l in enumerate(lab):
+        g.setdefault(l, []).append(i)
+    return lab, g
+
+
+def mean_reading(vals):
+    """'mean size' of one trajectory from the statement, in exact arithmetic.
+    returns (skip, prop): skip = mean over the measured (non-NaN) sizes, as pandas computes it;
+    prop = the mean with NaN propagated.  Each is a Fraction, '+inf', '-inf' or None (no mean /
+    NaN mean, which is not below any cut)."""
+    meas = [v for v in vals if v == v]
+    if not meas:
+        return None, None
+    pinf = any(v == np.inf for v in meas)
+    ninf = any(v == -np.inf for v in meas)
+    if pinf and ninf:
+        skip = None
+    elif pinf:
+        skip = "+inf"
+    elif ninf:
+        skip = "-inf"
+    else:
+        skip = sum(Fraction(float(v)) for v in meas) / len(meas)
+    return skip, (skip if len(meas) == len(vals) else None)
+
+
+def below(mean, cut):
+    if mean is None or cut is None or mean == "+inf":
+        return False
+    if mean == "-inf":
+        return True
+    return mean < cut
+
+
+def filter_expect(which, S, thr=None, cut=None):
+    """THE STATEMENT on the table S (a fresh snapshot of what the filter is handed):
+    stubs: rows of the trajectories with at least thr observations; clusters: rows of the
+    trajectories whose mean size is below the cut - both readings of 'mean size' when sizes are NaN.
+    returns dict(accept=[sorted row positions, ...], margin, nan_groups, allnan_groups)"""
+    lab, g = traj_groups(S)
+    if which == "stubs":
+        keep = sorted(i for l, idx in g.items() if len(idx) >= thr for i in idx)
+        return dict(accept=[keep], margin=None, groups=len(g), kept_groups=[
+            sum(1 for idx in g.values() if len(idx) >= thr)])
+    size = S["size"].to_numpy(dtype=np.float64)
+    a, b = [], []
+    ka = kb = 0
+    margin = None
+    tie = False
+    nan_groups = allnan = 0
+    for l, idx in g.items():
+        vals = [size[i] for i in idx]
+        skip, prop = mean_reading(vals)
+        if any(v != v for v in vals):
+            nan_groups += 1
+            if all(v != v for v in vals):
+                allnan += 1
+        if isinstance(skip, Fraction) and cut is not None:
+            d = abs(float(skip - cut))
+            tie = tie or skip == cut
+            if skip != cut:
+                margin = d if margin is None else min(margin, d)
+        if below(skip, cut):
+            a += idx
+            ka += 1
+        if below(prop, cut):
+            b += idx
+            kb += 1
+    acc = [sorted(a)]
+    if sorted(b) != sorted(a):
+        acc.append(sorted(b))
+    return dict(accept=acc, margin=margin, tie=tie, groups=len(g), kept_groups=[ka, kb],
+                nan_groups=nan_groups, allnan_groups=allnan)
+
+
+def resolve_cut(S, par):
+    """the cut of a filter_clusters call: explicit threshold, a threshold placed at run time on
+    the 1/16 grid next to the mean size of a trajectory (cut_sel=[k, off]: exact ties and
+    one-step margins), or the documented quantile of the measured sizes of all rows.
+    returns (kwargs for filter_clusters, exact cut as Fraction / None, ok)"""
+    size = S["size"].to_numpy(dtype=np.float64)
+    finite = [Fraction(float(v)) for v in size if np.isfinite(v)]
+    if par.get("cut_sel") is not None:
+        lab, g = traj_groups(S)
+        means = sorted(m for m in (mean_reading([size[i] for i in idx])[0] for idx in g.values())
+                       if isinstance(m, Fraction))
+        if not means:
+            c = Fraction(3)
+        else:
+            k, off = par["cut_sel"]
+            c = Fraction(int(means[k % len(means)] * 16) + off, 16)
+        return dict(threshold=float(c)), c, True
+    if par.get("cut") is not None:
+        c = Fraction(float(par["cut"]))
+        return dict(threshold=float(par["cut"])), c, True
+    q = par.get("quantile")
+    qq = 0.8 if q is None else q
+    kwargs = {} if q is None else dict(quantile=q)
+    if len(finite) != int(np.sum(size == size)):
+        return kwargs, None, False                                 # inf sizes: quantile not used
+    if not finite:
+        return kwargs, None, True                                  # no measured size: NaN cut
+    return kwargs, exact_quantile(finite, qq), True
+
+
+def table_equal_rows(out, S, pos):
+    """values unchanged: row j of `out` must be row pos[j] of S in every column, dtypes included.
+    returns None or a message"""
+    exp = S.iloc[pos].reset_index(drop=True)
+    got = fresh_table(out)
+    if list(got.columns) != list(exp.columns):
+        return "columns changed: %s" % list(got.columns)
+    if got.equals(exp):
+        return None
+    for c in exp.columns:
+        if str(got[c].dtype) != str(exp[c].dtype):
+            return "dtype of column %s changed: %s -> %s" % (c, exp[c].dtype, got[c].dtype)
+        a, b = got[c].tolist(), exp[c].tolist()
+        for j in range(len(a)):
+            if not (a[j] == b[j] or (a[j] != a[j] and b[j] != b[j])):
+                return "value changed in row %s column %s: %r -> %r" % (pos[j], c, b[j], a[j])
+    return "values changed"
+
+
+def judge_filter(which, S, out, thr=None, cut=None):
+    """direct oracle of a filter call on S (fresh snapshot with a `rid` column) returning `out`.
+    returns (bad message or None, expectation dict, reading index matched or None)"""
+    exp = filter_expect(which, S, thr=thr, cut=cut)
+    if "rid" not in out.columns:
+        return "columns changed: %s" % list(out.columns), exp, None
+    where = {int(r): i for i, r in enumerate(S["rid"].tolist())}
+    try:
+        pos = [where[int(r)] for r in out["rid"].tolist()]
+    except (KeyError, ValueError):
+        return "returned rows that are not rows of the table", exp, None
+    reading = None
+    for k, acc in enumerate(exp["accept"]):
+        if sorted(pos) == acc:
+            reading = k
+            break
+    if reading is None:
+        lab = S["particle"].tolist()
+        got_l = sorted({str(lab[i]) for i in pos})
+        want_l = [sorted({str(lab[i]) for i in acc}) for acc in exp["accept"]]
+        return ("row set differs: returned %d rows of trajectories %s; the statement gives %s"
+                % (len(pos), got_l, " or ".join("%d rows of %s" % (len(a), w)
+                                                for a, w in zip(exp["accept"], want_l)))), exp, None
+    return table_equal_rows(out, S, pos), exp, reading
+
+
+# ------------------------------------------------------------------------------------------
+# filterx stream: the filters on tables of every data class
+
+def gen_filterx(rng, i):
+    rows = gen_rows(rng, npart=rng.randint(1, 7), nframes=rng.randint(1, 12),
+                    dup=rng.random() < 0.15)
+    inp = dict(stream="filterx", rows=rows, layout=rng.choice(LAYOUTS), variant=rng.randint(0, 1),
+               mods=gen_mods(rng, rows, session=False))
+    add_clash(rng, inp["mods"], inp["layout"], inp["variant"])
+    counts = {}
+    for r in rows:
+        counts[r["particle"]] = counts.get(r["particle"], 0) + 1
+    if i % 3 == 0:
+        inp["which"] = "stubs"
+        c = rng.choice(sorted(counts.values()))
+        inp["par"] = dict(stub_thr=rng.choice([c, c, c + 1, c - 1, 0, 1, 2.5, 100]))
+    else:
+        inp["which"] = "clusters"
+        r = rng.random()
+        if r < 0.25:
+            inp["par"] = dict(quantile=rng.choice([0.0, 0.25, 0.5, 0.75, 0.875, 1.0, None]))
+        elif r < 0.35:
+            inp["par"] = dict(cut=rng.choice([0.0, 0.5, 1.0, 3.0, 100.0, -1.0]))
+        else:
+            inp["par"] = dict(cut_sel=[rng.randint(0, 6), rng.choice([0, 0, 1, -1, 2, -8, 8])])
+    return inp
+
+
+def model_filter(ctx, which, S, thr, cut):
+    """the Lean model on the same table: labels renamed to integers by first appearance;
+    clusters: on the rows with a measured size (pandas' mean skips NaN), None if sizes are inf or
+    the threshold is not an integer.  returns the kept row positions of S (in storage order)"""
+    lab, g = traj_groups(S)
+    ren = {l: k for k, l in enumerate(g)}
+    size = S["size"].to_numpy(dtype=np.float64)
+    frames = S["frame"].tolist()
+    if which == "stubs":
+        if thr != int(thr):
+            return None
+        body = " ; ".join("%d,%d,0" % (frames[i], ren[lab[i]]) for i in range(len(lab)))
+        m = common.kv(ctx.ask("FSTUBS %d | %s" % (int(thr), body)))
+        sub = list(range(len(lab)))
+    else:
+        if cut is None or np.any(np.isinf(size)):
+            return None
+        sub = [i for i in range(len(lab)) if size[i] == size[i]]
+        if not sub:
+            return []
+        body = " ; ".join("%d,%d,%s" % (frames[i], ren[lab[i]], common.rat_str(Fraction(float(size[i]))))
+                          for i in sub)
+        m = common.kv(ctx.ask("FCLUST %s | %s" % (common.rat_str(cut), body)))
+    if "keep" not in m:
+        raise RuntimeError("driver: %r" % m)
+    keep = [int(x) for x in m["keep"].split(",")] if m["keep"] not in ("", True) else []
+    kept_labels = {lab[sub[j]] for j in keep}
+    return [i for i in range(len(lab)) if lab[i] in kept_labels]
+
+
+def run_filterx_case(ctx, inp):
+    res = Result()
+    which = inp["which"]
+    par = inp["par"]
+    t = build_table(inp["rows"], inp.get("mods"), inp["layout"], inp.get("variant", 0))
+    mods_stats(res, t, inp.get("mods"))
+    res.stat("filterx_%s" % which)
+    snap = snapshot(t)
+    S = snap["values"]
+    thr = cut = None
+    if which == "stubs":
+        thr = par["stub_thr"]
+        call = lambda tab: tp().filter_stubs(tab, thr)
+    else:
+        kwargs, cut, ok = resolve_cut(S, par)
+        if not ok:
+            res.stat("filterx_quantile_with_inf_skipped")
+            return res
+        call = lambda tab: tp().filter_clusters(tab, **kwargs)
+    try:
+        out = call(t)
+        out_fresh = call(fresh_table(t))
+    except Exception as e:
+        res.violation("property-violation", "filter_%s raised %r" % (which, e), impl=repr(e),
+                      signature=dict(stream="filterx", which=which, error=type(e).__name__))
+        return res
+    res.stat("fresh_rebuild_comparisons")
+    bad, exp, reading = judge_filter(which, S, out, thr=thr, cut=cut)
+    if which == "clusters" and exp["margin"] is not None and exp["margin"] < 1e-9:
+        res.borderline = True
+        return res
+    if exp.get("nan_groups"):
+        res.stat("filterx_tables_with_nan_trajectory")
+        if exp["allnan_groups"]:
+            res.stat("filterx_tables_with_unmeasured_trajectory")
+        if len(exp["accept"]) > 1:
+            res.stat("filterx_nan_readings_differ")
+    if exp.get("tie"):
+        res.stat("filter_exact_tie")
+    if bad is None:
+        mod = modified_aspect(snap, t)
+        if mod is not None:
+            res.violation("property-violation", "filter_%s modified the caller's table (%s: %s)"
+                          % (which, mod[0], mod[1]), impl=mod[1],
+                          signature=dict(stream="filterx", which=which,
+                                         what="caller-table-modified", aspect=mod[0]))
+    if bad is None:
+        a, b = fresh_table(out), fresh_table(out_fresh)
+        if not a.equals(b):
+            bad = ("differs from the same data in a freshly built plain table: %d rows vs %d rows"
+                   % (len(a), len(b)))
+    if bad:
+        res.violation("property-violation", "filter_%s(%s): %s" % (which, par, bad),
+                      impl=dict(rids=[int(x) for x in out["rid"].tolist()] if "rid" in out else None,
+                                cut=str(cut), thr=thr),
+                      model=dict(statement=[len(a) for a in exp["accept"]]),
+                      signature=dict(stream="filterx", which=which, what=bad.split(":")[0]))
+        return res
+    if reading == 1:
+        res.stat("filterx_matched_nan_propagating_reading")
+    mk = model_filter(ctx, which, S, thr, cut)
+    if mk is None:
+        res.stat("filterx_model_not_applicable")
+    else:
+        where = {int(r): i for i, r in enumerate(S["rid"].tolist())}
+        got = [where[int(r)] for r in out["rid"].tolist()]
+        if got != mk and not (reading == 1 and len(exp["accept"]) > 1):
+            res.violation("correspondence-break",
+                          "filter_%s agrees with the statement but not with the model (rows/order): "
+                          "impl %s model %s" % (which, got, mk), impl=got, model=mk,
+                          broken="Filter.filterStubs / Filter.filterClusters (gfilter)",
+                          signature=dict(stream="filterx", which=which, what="model"))
+    lay = classify(out)
+    if lay != "frameIdx" or not np.array_equal(out.index.values, out["frame"].values):
+        res.violation("correspondence-break", "filter output is not indexed by its frame column: %s"
+                      % lay, impl=lay, model="set_index('frame', drop=False)",
+                      broken="Model/Filter.lean header (index rebuilt from frame)",
+                      signature=dict(stream="filterx", which=which, what="index"))
+    kept = exp["kept_groups"][reading or 0]
+    res.nontrivial = 0 < kept < exp["groups"]
+    res.sample = dict(stream="filterx", which=which, rows=len(S), kept=len(out),
+                      mods=sorted((inp.get("mods") or {}).keys()))
+    return res
+
+
+# ------------------------------------------------------------------------------------------
+# session stream: programs that are DAGs over table OBJECTS
+
+def step_par(rng, op):
+    if op == "link":
+        return dict(search_range=rng.choice([1.0, 1.5, 2.0, 3.0, 5.0]), memory=rng.choice([0, 0, 1, 3]))
+    if op == "link_partial":
+        a = rng.randint(0, 3)
+        return dict(search_range=rng.choice([1.0, 1.5, 3.0, 5.0]), link_range=[a, a + rng.randint(1, 5)])
+    if op == "filter_stubs":
+        return dict(stub_thr=rng.choice([1, 2, 2, 3, 3, 4, 5, 6, 8]))
+    if op == "filter_clusters":
+        r = rng.random()
+        if r < 0.6:
+            return dict(cut_sel=[rng.randint(0, 6), rng.choice([0, 0, 1, -1, 2, 8])])
+        if r < 0.8:
+            return dict(cut=rng.choice([3.5, 5.0, 100.0]))
+        return dict(quantile=rng.choice([0.5, 0.8, 1.0, None]))
+    if op == "cluster":
+        return dict(separation=rng.choice([2.0, 5.0, 9.0]))
+    return {}
+
+
+def gen_session(rng, i, thorough):
+    """a program over registers: register 0 is the caller's table, register j+1 the table
+    returned by step j (producers only).  Families (in rotation):
+      revisit : A(T); U = B(T) or B(subtract_drift(T)); A(U)   - A any stage, B any producer: a
+                stage meets the result of a producer that was handed an object the stage had seen
+      twice   : A(T, p1); A(T, p2); A(T, p1) on ONE object, then stages on each result
+      feedback: relink / patch an already linked table with other ranges, filters after each
+      random  : random DAG, sources biased to registers that were already consumed"""
+    rows = gen_rows(rng, npart=rng.randint(2, 6), nframes=rng.randint(4, 12),
+                    close=rng.random() < 0.3, dup=rng.random() < 0.1, jitter=True)
+    mods = gen_mods(rng, rows, session=True)
+    fam = ["revisit", "twice", "feedback", "random"][i % 4]
+    k = i // 4
+    steps = []
+
+    def add(op, src, par=None):
+        steps.append(dict(op=op, src=src, par=step_par(rng, op) if par is None else par))
+        return len(steps)                                         # register of the result
+
+    if fam == "revisit":
+        A = STAGES[k % len(STAGES)]
+        B = PRODUCERS[(k // len(STAGES)) % len(PRODUCERS)]
+        pa = step_par(rng, A)
+        add(A, 0, pa)
+        src = 0
+        if rng.random() < 0.3:
+            src = add("subtract_drift", 0)
+        u = add(B, src)
+        add(A, u, pa if rng.random() < 0.7 else None)
+        if A in PRODUCERS and rng.random() < 0.5:
+            add(rng.choice(["filter_stubs", "filter_clusters"]), len(steps))
+    elif fam == "twice":
+        A = PRODUCERS[k % len(PRODUCERS)]
+        p1 = step_par(rng, A)
+        r1 = add(A, 0, p1)
+        r2 = add(A, 0)
+        add(A, 0, p1)
+        for r in (r1, r2):
+            add(rng.choice(STAGES), r)
+    elif fam == "feedback":
+        u = add("link", 0, dict(search_range=rng.choice([3.0, 5.0]), memory=rng.choice([0, 1, 3])))
+        f = add(rng.choice(["filter_stubs", "filter_clusters"]), u)
+        v = add("link", u, dict(search_range=rng.choice([1.0, 1.5, 2.0]), memory=rng.choice([0, 1])))
+        add("filter_stubs", v)
+        w = add("link_partial", rng.choice([u, v]))
+        add(rng.choice(["filter_stubs", "filter_clusters"]), w)
+        add(rng.choice(["link", "link_partial"]), f)
+        add("filter_stubs", len(steps))
+    nmax = (10 if thorough else 7) if fam == "random" else len(steps) + rng.randint(0, 2)
+    used = set(s["src"] for s in steps)
+    while len(steps) < nmax:
+        regs = [0] + [j + 1 for j, s in enumerate(steps) if s["op"] in PRODUCERS]
+        w = [(3 if r in used else 1) + (2 if r == regs[-1] else 0) for r in regs]
+        src = rng.choices(regs, weights=w)[0]
+        op = rng.choice(PRODUCERS * 3 + ["filter_stubs"] * 3 + CONSUMERS)
+        add(op, src)
+        used.add(src)
+    inp = dict(stream="session", family=fam, rows=rows, mods=mods,
+               layout=rng.choice(INIT_LAYOUTS), variant=rng.randint(0, 1), steps=steps)
+    add_clash(rng, mods, inp["layout"], inp["variant"])
+    return inp
+
+
+def program_text(steps, upto):
+    out = []
+    for j, s in enumerate(steps[:upto + 1]):
+        args = ",".join("%s=%s" % kv for kv in sorted(s["par"].items()))
+        out.append("r%d=%s(r%d%s)" % (j + 1, s["op"], s["src"], "," + args if args else ""))
+    return "; ".join(out)
+
+
+def session_link_tie(stage, src, par, out, out_fresh):
+    """as link_tie_recheck, against freshly built tables"""
+    drop = lambda d: d.drop(columns=["particle"])
+    if not same_numbers(canon_traj(drop(out)), canon_traj(drop(out_fresh))):
+        return False
+    a, b = [canon_partition(out)], [canon_partition(out_fresh)]
+    for _ in range(3):
+        try:
+            a.append(canon_partition(run_stage(stage, src, par, copy=False)))
+            b.append(canon_partition(run_stage(stage, fresh_table(src), par, copy=False)))
+        except Exception:
+            return False
+    return any(same_numbers(x, y) for x in a for y in b)
+
+
+def run_session_case(ctx, inp):
+    res = Result()
+    steps = inp["steps"]
+    t0 = build_table(inp["rows"], inp.get("mods"), inp["layout"], inp.get("variant", 0))
+    mods_stats(res, t0, inp.get("mods"))
+    res.stat("session_cases")
+    res.stat("session_family_%s" % inp.get("family", "corpus"))
+    regs = {0: t0}
+    snaps = {0: snapshot(t0)}
+    uses = {}
+    seen_by = {}                                                  # register -> stages that saw it
+    ran = compared = oracle_calls = 0
+    violated = set()
+
+    def viol(j, what, msg, stage, **extra):
+        key = (what, stage, extra.get("aspect"))
+        if key in violated:
+            return
+        violated.add(key)
+        sig = dict(stream="session", stage=stage, what=what)
+        sig.update({k: v for k, v in extra.items() if k in ("aspect", "error")})
+        res.violation("property-violation", "session [%s]: %s" % (program_text(steps, j), msg),
+                      impl=dict(step=j + 1, **extra), model=None, signature=sig)
+
+    for j, st in enumerate(steps):
+        op, src_id = st["op"], st["src"]
+        src = regs.get(src_id)
+        if src is None or len(src) == 0:
+            res.stat("session_step_skipped_no_source")
+            continue
+        produced = src_id != 0
+        par = dict(default_params())
+        par.update(st["par"])
+        S = snaps[src_id]["values"]
+        cut = None
+        oracle_ok = True
+        if op == "filter_clusters":
+            kwargs, cut, oracle_ok = resolve_cut(S, st["par"])
+            par["cut"] = kwargs.get("threshold")
+            par["quantile"] = kwargs.get("quantile", 0.8)
+        uses[src_id] = uses.get(src_id, 0) + 1
+        if uses[src_id] > 1:
+            res.stat("session_shared_table_uses")
+        if seen_by.get(src_id) and op in seen_by[src_id]:
+            res.stat("session_same_stage_again_on_object")
+        seen_by.setdefault(src_id, set()).add(op)
+        fresh = fresh_table(src)
+        try:
+            r_fresh = ("ok", run_stage(op, fresh, par, copy=False))
+        except Exception as e:
+            r_fresh = ("err", type(e).__name__, str(e)[:160])
+        try:
+            r_obj = ("ok", run_stage(op, src, par, copy=False))
+        except Exception as e:
+            r_obj = ("err", type(e).__name__, str(e)[:160])
+        ran += 1
+        res.stat("session_steps")
+        res.stat("session_step_%s" % op)
+        # (o) no stage may modify a table of the caller (any live register), attrs included
+        for rid_, sn in snaps.items():
+            mod = modified_aspect(sn, regs[rid_])
+            if mod is not None:
+                viol(j, "caller-table-modified",
+                     "%s modified the caller's table r%d (%s: %s)" % (op, rid_, mod[0], mod[1]),
+                     op, aspect=mod[0])
+                snaps[rid_] = snapshot(regs[rid_])
+        if r_fresh[0] == "err":
+            res.stat("session_degenerate_step")
+            if r_obj[0] == "ok":
+                res.stat("session_plain_rejects_object_accepted")
+            if r_obj[0] == "ok" and op in PRODUCERS:
+                regs[j + 1] = r_obj[1]
+                snaps[j + 1] = snapshot(r_obj[1])
+            continue
+        if r_obj[0] == "err":
+            res.stat("session_rejects")
+            if produced or op in ("filter_stubs", "filter_clusters"):
+                viol(j, "rejected", "%s rejects r%d (%s: %s) but accepts the same data in a freshly "
+                     "built plain table" % (op, src_id, r_obj[1], r_obj[2]), op, error=r_obj[1])
+            else:
+                res.stat("session_initial_table_rejected")
+            continue
+        out, outf = r_obj[1], r_fresh[1]
+        # (i) the statement's direct oracle
+        if op in ("filter_stubs", "filter_clusters"):
+            which = "stubs" if op == "filter_stubs" else "clusters"
+            if oracle_ok:
+                bad, exp, reading = judge_filter(which, S, out, thr=par["stub_thr"], cut=cut)
+                if which == "clusters" and exp["margin"] is not None and exp["margin"] < 1e-9:
+                    res.stat("session_borderline_cut")
+                else:
+                    oracle_calls += 1
+                    res.stat("session_direct_oracle_checks")
+                    if exp.get("nan_groups"):
+                        res.stat("session_filter_clusters_on_nan_sizes")
+                    if bad:
+                        viol(j, bad.split(":")[0], "%s on r%d: %s" % (op, src_id, bad), op)
+        # (ii) the same stage on the same data in a freshly built plain table
+        compared += 1
+        res.stat("fresh_rebuild_comparisons")
+        if op in ("filter_stubs", "filter_clusters"):
+            same = fresh_table(out).equals(fresh_table(outf))
+        else:
+            same = same_numbers(canon_out(op, out), canon_out(op, outf))
+            if not same and op in ("link", "link_partial") and \
+                    session_link_tie(op, src, par, out, outf):
+                same = True
+                res.stat("link_tie_nondeterministic")
+        if not same:
+            res.stat("session_differs")
+            if produced or op in ("filter_stubs", "filter_clusters"):
+                viol(j, "differs-from-fresh", "%s on r%d gives other numbers than on the same data "
+                     "in a freshly built plain default-indexed table (%d vs %d rows)"
+                     % (op, src_id, len(out), len(outf)), op)
+            else:
+                res.stat("session_initial_table_differs")
+        if op in PRODUCERS:
+            regs[j + 1] = out
+            snaps[j + 1] = snapshot(out)
+            res.stat("session_layout_%s" % classify(out))
+    shared = sum(1 for v in uses.values() if v > 1)
+    res.stat("session_shared_tables", shared)
+    res.nontrivial = ran >= 3 and shared >= 1 and compared >= 3
+    res.sample = dict(stream="session", family=inp.get("family"), steps=ran, shared_tables=shared,
+                      oracle_checks=oracle_calls, program=program_text(steps, len(steps) - 1)[:300])
+    return res
+
+
 def run_case(ctx, inp):
     st = inp.get("stream")
     if st == "table":
@@ -1047,4 +1842,8 @@ def run_case(ctx, inp):
         return run_filter_case(ctx, inp)
     if st == "pipeline":
         return run_pipeline_case(ctx, inp)
+    if st == "filterx":
+        return run_filterx_case(ctx, inp)
+    if st == "session":
+        return run_session_case(ctx, inp)
     raise ValueError("unknown stream %r" % st)
